@@ -48,6 +48,8 @@ def syntactically_may_raise(node: ast.AST) -> bool:
             return True
         if isinstance(n, ast.Subscript) and isinstance(n.ctx, (ast.Load, ast.Del)):
             return True
+        if isinstance(n, ast.Attribute) and isinstance(n.ctx, ast.Load) and n.attr in ("__qualname__", "__name__"):
+            return True  # arbitrary callables have neither (effects.node_may_raise decides)
     return False
 
 
